@@ -32,6 +32,8 @@ type Universe struct {
 	// UnlistedStems are unknown ids chosen to be hostile: U is on no list, but U-or-later or U-only is
 	// (e.g. GFDL-1.1-invariants). By the grammar they are unknown ids like any other.
 	UnlistedStems []string
+	// Unknown is UnknownIDs minus anything that (up to letter case) is on a list of the tree under check
+	Unknown []string
 }
 
 // Load reads the tables of the tree under check.
@@ -94,6 +96,13 @@ func Load() *Universe {
 		}
 	}
 	u.AllLicense = append(append([]string{}, u.Active...), u.Deprecated...)
+	defer func() {
+		for _, x := range UnknownIDs {
+			if !u.ListedFold(x) {
+				u.Unknown = append(u.Unknown, x)
+			}
+		}
+	}()
 	for _, x := range u.AllLicense {
 		lx := strings.ToLower(x)
 		if _, ok := u.FoldSet[lx]; !ok {
